@@ -11,6 +11,14 @@ CHECKS = {
         'note': TB + 'Not decided: limit_denominator optimality, float round-trip; i64 overflow excluded by the quantifier.',
         'technique': 'encapsulation enumeration over HIR+MIR, abstract interpretation (template constraints), operator-impl sibling rule',
     },
+    'C04': {
+        'text': 'Static: must-fact extraction over the resolved HIR shows that each of the 14 contracted matchers establishes, on every accepting path, '
+                'every conjunct of its rule precondition that is necessary for soundness or for not panicking (refs/rules_req.py); existence typestate: no '
+                'panicking accessor on a vertex parameter is reached without a fact implying the vertex exists (17 matchers, helpers inlined); rejection is a '
+                'no-op: matchers take &impl GraphLike, no interior mutability in either back end, each checked wrapper mutates only in the accepting branch with its own arguments.',
+        'note': TB + 'The contract table is trusted (derivations in refs/rules_req.py). Not decided: sufficiency of the preconditions (C01 schemas + calculus), arithmetic-overflow panics, the pi-copy leg condition.',
+        'technique': 'must-fact (accepting-condition DNF) extraction with closure rules, existence typestate, wrapper shape rule',
+    },
     'C07': {
         'text': 'Static: every lossy mantissa shift is paired with the lost-bit test that sets APPROX; a flag-taint analysis shows on every return path of '
                 'Dyadic add/mul that the result includes the APPROX bit of both operands; Ord::cmp is decided completely over the finite abstraction '
